@@ -121,7 +121,7 @@ def g_tree(draw, max_nodes=40, max_depth=2, soll_bias=False, min_freetext=0, exp
     def data_element(parent):
         budget[0] -= 1
         if draw(st.sampled_from(range(5))) < 3:
-            return {"t": "ft", "d": name("D", parent), "expr": draw(expression()),
+            return {"t": "ft", "d": name("D", parent), "expr": draw(expression()), "vt": draw(st.sampled_from([None, None, "TEXT", "DATETIME"])),
                     "inp": draw(st.sampled_from([None, "", "x", "yy", "0", "2022-01-01T00:00:00+01:00", " x\n", " ", "100% {0}"]))}  # fmt: skip
         qualifiers = draw(st.lists(st.sampled_from(QUALIFIERS), min_size=1, max_size=5, unique=True))
         pool = [with_meaning(draw, {"q": q, "expr": draw(expression())}) for q in qualifiers]
@@ -234,8 +234,14 @@ def build_element(element):
     from maus.models.edifact_components import DataElementFreeText, DataElementValuePool, ValuePoolEntry
 
     if element["t"] == "ft":
+        extra = {}
+        if element.get("vt") is not None:
+            from maus.models.edifact_components import DataElementDataType
+
+            extra["value_type"] = DataElementDataType(element["vt"])  # maus' default is TEXT
         return DataElementFreeText(
-            discriminator=disc(element), ahb_expression=element["expr"]["s"], entered_input=element["inp"], data_element_id="1234"
+            discriminator=disc(element), ahb_expression=element["expr"]["s"], entered_input=element["inp"], data_element_id="1234",
+            **extra
         )
     return DataElementValuePool(
         discriminator=disc(element),
